@@ -27,6 +27,7 @@ import Driver.ExText
 import Driver.ExK
 import Driver.Keys
 import Driver.C18R
+import Driver.CK
 /-!
 Line-protocol driver `jsight-model` (DESIGN.md §12). One request per line on stdin, one reply per
 line on stdout. Core Lean only: nothing imported here may import Mathlib (the executable would
@@ -238,6 +239,7 @@ def handle (line : String) : String :=
   | "exk" :: _ => DExK.handle line
   | "tg" :: _ => DTG.handle line
   | "lk" :: _ => DLK.handle line
+  | "ck" :: _ => DCK.handle (restOf line)
   | "ast" :: r => DMisc.ast r
   | "rgx" :: r => DMisc.rgx r
   | "c18r" :: r => DC18R.handle r
